@@ -4,62 +4,10 @@
   methods (`while True: try: recent.remove(key) except ValueError: break`; `for k in keys: try: del map[k] except: pass`)
   evaluated once and for all, for every fuel that suffices.
 -/
-import AHP.Gen.Code
+import AHP.Lemmas.PyAst
 import AHP.Lemmas.Cache
 namespace AHP.PyAst
 open AHP AHP.Gen AHP.Conv AHP.Gen.Code AHP.Cache
-
-/-! ### association lists -/
-
-theorem lookup_assocSet_eq {α : Type} (l : List (String × α)) (x : String) (v : α) :
-    (assocSet l x v).lookup x = some v := by
-  induction l with
-  | nil => simp [assocSet, List.lookup]
-  | cons p r ih =>
-    obtain ⟨y, w⟩ := p
-    by_cases h : y = x
-    · simp [assocSet, h, List.lookup]
-    · have h' : (x == y) = false := by simpa using fun e => h e.symm
-      simp [assocSet, h, List.lookup, h', ih]
-
-theorem lookup_assocSet_ne {α : Type} (l : List (String × α)) (x z : String) (v : α) (hz : z ≠ x) :
-    (assocSet l x v).lookup z = l.lookup z := by
-  induction l with
-  | nil =>
-    have h' : (z == x) = false := by simpa using hz
-    simp [assocSet, List.lookup, h']
-  | cons p r ih =>
-    obtain ⟨y, w⟩ := p
-    by_cases h : y = x
-    · subst h
-      have h' : (z == y) = false := by simpa using hz
-      simp [assocSet, List.lookup, h']
-    · simp only [assocSet, h, if_false, List.lookup]
-      cases (z == y) <;> simp [ih]
-
-theorem assocSet_assocSet {α : Type} (l : List (String × α)) (x : String) (v w : α) :
-    assocSet (assocSet l x v) x w = assocSet l x w := by
-  induction l with
-  | nil => simp [assocSet]
-  | cons p r ih =>
-    obtain ⟨y, u⟩ := p
-    by_cases h : y = x
-    · simp [assocSet, h]
-    · simp [assocSet, h, ih]
-
-theorem assocSet_self {α : Type} (l : List (String × α)) (x : String) (v : α) (h : l.lookup x = some v) :
-    assocSet l x v = l := by
-  induction l with
-  | nil => simp [List.lookup] at h
-  | cons p r ih =>
-    obtain ⟨y, u⟩ := p
-    by_cases hy : y = x
-    · subst hy
-      simp [List.lookup] at h
-      simp [assocSet, h]
-    · have h' : (x == y) = false := by simpa using fun e => hy e.symm
-      simp only [List.lookup, h'] at h
-      simp [assocSet, hy, ih h]
 
 /-! ### the hand model's keys (texts) and maps inside the interpreter's lists and dicts -/
 
@@ -337,10 +285,6 @@ theorem delLoop_set_stmt (cx : Ctx) (ks : List Str) (m : List (Str × PyV)) (R L
 theorem embK_snoc (r : List Str) (k : Str) : embK r ++ [PyV.str k] = embK (r ++ [k]) := by simp [embK]
 theorem sliceTo_embK (l : List Str) (n : Int) : Cache.sliceTo (embK l) n = embK (Cache.sliceTo l n) := sliceTo_map _ _ _
 theorem sliceFrom_embK (l : List Str) (n : Int) : Cache.sliceFrom (embK l) n = embK (Cache.sliceFrom l n) := sliceFrom_map _ _ _
-
-/-- The equations of `execS` for the straight-line statements (not the loops: those are rewritten as a whole). -/
-macro "py_stmts" : tactic => `(tactic| simp only [execS.eq_1, execS.eq_2, execS.eq_3, execS.eq_4, execS.eq_5, execS.eq_6,
-  execS.eq_7, execS.eq_10, execS.eq_11, execS.eq_12, execS.eq_13, execS.eq_14, execS.eq_15, execL, execH])
 
 /-- Evaluate the straight-line parts of a dumped method of the cache (after `py_stmts`). -/
 macro "py_cache" "[" ts:Lean.Parser.Tactic.simpLemma,* "]" : tactic => `(tactic| simp [$ts,*,
